@@ -37,6 +37,10 @@ CHECKS = {
   text="Lean 4 model of winnow's char_boundary (ParseError::char_span), of translate_position and of the index arithmetic in Display for TomlError; theorems in Props/C15.lean (span within bounds and on character boundaries for every offset; line/column = newlines before / characters since the last newline for every valid UTF-8 text and boundary index, with the end-of-input convention; rendering cannot fail). The model is compared with the implementation on every rejected text (span from its start, rendered line/column); direct oracles on the implementation: span within bounds and on boundaries, non-empty message, line/column against an independent character count, toml::de::Error = toml_edit::TomlError; typed decodes of valid generated documents against mismatching target kinds through three deserializer routes must fail with the offending value's span (with source) or the key path (without).",
   note="Trusted: Lean kernel, sampling correspondence; which offset winnow reports is not modelled (only that the span derived from it is well-formed). Known finding F13 (empty message where no parser context applies; pinned by an existing snapshot) is listed in known_findings.json by call site.",
   technique="Lean 4 proof (position arithmetic) + differential correspondence + direct oracles", design="7/C15"),
+ "C04": dict(
+  text="The Lean models of every entry point (document, value, key, key path, slice, standalone date-time, error rendering) are total functions with no panic outcome; theorems in Props/C04.lean discharge the code's guards (every byte class fed to from_utf8_unchecked is ASCII-only hence valid UTF-8; the remaining sites are tied to theorems of C05/C09/C12/C14/C15 in Model/PanicSites.lean). Tie: the inventory of every expect/unwrap/unreachable!/panic!/assert! in the 17 anchored files is regenerated from /repo and must equal the inventory the models account for (a new or moved panic site breaks the table theorem). Correspondence: per-entry-point verdicts of model and implementation on corpus files, mutations, single tokens, arbitrary and non-UTF-8 bytes, partial characters, unterminated and extreme constructs of several KiB; the implementation runs every entry point and every follow-up operation (print, debug, clone, into_mut, from_document, serialize, error rendering) under catch_unwind in a build with debug assertions and overflow checks, with a per-input time bound.",
+  note="Trusted: Lean kernel, translate.py (regex inventory), sampling correspondence. Termination is by construction of the model (fuel); that the fuel bound is never the cause of a rejection is validated by the correspondence, the linear time budget is measured. Clone/Drop/Debug derives are not modelled (their recursion depth is C05).",
+  technique="Lean 4 total model + guard proofs + panic-site inventory re-proof + differential correspondence under catch_unwind", design="7/C04"),
 }
 
 NA = {}
